@@ -14,55 +14,7 @@ From RtoscV Require Import Save.TopoModel Save.SaveModel.
 Import ListNotations.
 Local Open Scope Z_scope.
 
-(* ---- a line as the printer's input ------------------------------------------------------ *)
-Definition av_of (x : scalar) : av :=
-  match x with
-  | SaveModel.VI z => Tok.VI z | SaveModel.VC z => Tok.VC z | SaveModel.VF b => Tok.VFl b
-  | SaveModel.VT true => Tok.VT | SaveModel.VT false => Tok.VF
-  | SaveModel.VS s => Tok.VS s | SaveModel.VSym s => Tok.VSym s
-  end.
-Definition scalar_of (v : av) : option scalar :=
-  match v with
-  | Tok.VI z => Some (SaveModel.VI z) | Tok.VC z => Some (SaveModel.VC z) | Tok.VFl b => Some (SaveModel.VF b)
-  | Tok.VT => Some (SaveModel.VT true) | Tok.VF => Some (SaveModel.VT false)
-  | Tok.VS s => Some (SaveModel.VS s) | Tok.VSym s => Some (SaveModel.VSym s)
-  | _ => None
-  end.
-
-(* an array line carries the 'a' header in front of its elements (element type: that
-   of the first element, as get_changed_values sets it) *)
-Definition line_avs (l : line) : list av :=
-  let es := map av_of (l_vals l) in
-  if l_array l then Tok.VArr (match es with e :: _ => av_type e | [] => 105 end) (Z.of_nat (length es)) :: es
-  else es.
-
-Fixpoint map_opt' {A B} (f : A -> option B) (l : list A) : option (list B) :=
-  match l with
-  | [] => Some []
-  | x :: r => match f x, map_opt' f r with Some y, Some ys => Some (y :: ys) | _, _ => None end
-  end.
-
-(* what the loader makes of the scanned slots: ranges and repetitions written out
-   (C10's expand), an 'a' header in front means an array line *)
-Definition line_of_slots (addr : list Z) (slots : list av) : option line :=
-  match slots with
-  | Tok.VArr _ _ :: es =>
-      match expand es with
-      | Some vs => match map_opt' scalar_of vs with
-                   | Some xs => Some {| l_path := addr; l_array := true; l_vals := xs |}
-                   | None => None
-                   end
-      | None => None
-      end
-  | _ =>
-      match expand slots with
-      | Some vs => match map_opt' scalar_of vs with
-                   | Some xs => Some {| l_path := addr; l_array := false; l_vals := xs |}
-                   | None => None
-                   end
-      | None => None
-      end
-  end.
+From RtoscV Require Export Save.LinesModel.
 
 Lemma scalar_of_av : forall x, scalar_of (av_of x) = Some x.
 Proof. intros [z|z|b|[|]|s|s]; reflexivity. Qed.
@@ -73,49 +25,9 @@ Proof. induction vs as [|x vs IH]; [reflexivity|]. cbn. rewrite scalar_of_av, IH
 Section Body.
 Variables dec2f dec2d : list Z -> Z.
 Variable o : popts.
-
-(* save_to_file's body: every line printed (rtosc_print_message's text), a line feed behind it *)
-Definition print_line (l : line) : option (list Z) :=
-  match print_message o (l_path l) (line_avs l) 0 with
-  | Some (t, _) => Some (t ++ [10])
-  | None => None
-  end.
-Fixpoint print_body (ls : list line) : option (list Z) :=
-  match ls with
-  | [] => Some []
-  | l :: r => match print_line l, print_body r with
-              | Some t, Some b => Some (t ++ b)
-              | _, _ => None
-              end
-  end.
-
-(* the first loop of dispatch_printed_messages:
-     while( *msg_ptr && ok) { nargs = rtosc_count_printed_arg_vals_of_msg(msg_ptr);
-       if(nargs >= 0) { rd = rtosc_scan_message(...); msg_ptr += rd; }
-       else if(nargs == INT_MIN) while( *++msg_ptr) ;        -- white space only
-       else ok = false; }                                                        *)
-Fixpoint scan_body (fuel : nat) (txt : list Z) : list item :=
-  match fuel with
-  | O => [Junk]
-  | S f =>
-      match txt with
-      | [] => []
-      | _ =>
-          match count_printed_arg_vals_of_msg dec2f dec2d txt with
-          | Ok (true, n) =>
-              match scan_message dec2f dec2d txt n with
-              | Ok (addr, slots, r) =>
-                  match line_of_slots addr slots with
-                  | Some l => Msg l (len txt - len r) :: scan_body f r
-                  | None => [Junk]
-                  end
-              | _ => [Junk]
-              end
-          | Ok (false, n) => if n =? 2 ^ 31 then [] else [Junk]
-          | _ => [Junk]
-          end
-      end
-  end.
+Local Notation scan_body := (LinesModel.scan_body dec2f dec2d).
+Local Notation print_line := (LinesModel.print_line o).
+Local Notation print_body := (LinesModel.print_body o).
 
 Lemma scan_body_step : forall f txt, txt <> [] ->
   scan_body (S f) txt =
@@ -364,3 +276,76 @@ Proof.
     + apply Hscan. cbn [length] in Hf. lia.
 Qed.
 End Body.
+
+(* ---- the decidable form of the class (evaluated by the tie on every saved line) ---------- *)
+Lemma nonul_b_sound s : nonul_b s = true -> nonul s.
+Proof.
+  unfold nonul_b, nonul. rewrite forallb_forall, Forall_forall. intros H c Hc.
+  specialize (H c Hc). apply negb_true_iff, Z.eqb_neq in H. exact H.
+Qed.
+Lemma nodot_b_sound s : nodot_b s = true -> nodot s.
+Proof.
+  unfold nodot_b, nodot. rewrite forallb_forall, Forall_forall. intros H c Hc.
+  specialize (H c Hc). apply negb_true_iff, Z.eqb_neq in H. exact H.
+Qed.
+Lemma good_addr_b_sound a : good_addr_b a = true -> good_addr a.
+Proof.
+  unfold good_addr_b, good_addr. destruct a as [|c r]; [discriminate|].
+  destruct (Z.eq_dec c 47) as [->|Hn].
+  - intros H. split; [eexists; reflexivity|]. rewrite forallb_forall in H. apply Forall_forall.
+    intros x Hx. specialize (H x Hx). now apply negb_true_iff in H.
+  - destruct c as [|p|p]; try discriminate. repeat (destruct p as [p|p|]; try discriminate). congruence.
+Qed.
+Lemma good_scalar1_b_sound x : good_scalar1_b x = true -> good_scalar1 x.
+Proof.
+  destruct x as [z|z|b|t|s|s]; cbn [good_scalar1_b good_scalar1]; intros H.
+  - lia.
+  - lia.
+  - apply andb_true_iff in H as [H Hf]. split; [lia | exact Hf].
+  - exact I.
+  - now apply nonul_b_sound.
+  - apply orb_true_iff in H as [H|H]; [now left | right; now apply nonul_b_sound].
+Qed.
+Lemma good_elem_b_sound x : good_elem_b x = true -> good_elem x.
+Proof.
+  destruct x as [z|z|b|t|s|s]; cbn [good_elem_b good_elem]; intros H.
+  - lia.
+  - lia.
+  - apply andb_true_iff in H as [H Hf]. split; [lia | exact Hf].
+  - exact I.
+  - apply andb_true_iff in H as [H1 H2]. split; [now apply nonul_b_sound | now apply nodot_b_sound].
+  - apply orb_true_iff in H as [H|H]; [now left | right].
+    apply andb_true_iff in H as [H1 H2]. split; [now apply nonul_b_sound | now apply nodot_b_sound].
+Qed.
+Lemma in_fzero z xs : In (VFl z) (map av_of xs) -> existsb (is_fzero z) xs = true.
+Proof.
+  intros H. apply in_map_iff in H as (x & E & Hx). apply existsb_exists. exists x. split; [exact Hx|].
+  destruct x as [a|a|b|[|]|s|s]; cbn [av_of] in E; try discriminate. inversion E; subst. cbn. apply Z.eqb_refl.
+Qed.
+Lemma nozmix_b_sound xs : nozmix_b xs = true -> nozmix (map av_of xs).
+Proof.
+  unfold nozmix_b, nozmix. intros H. split.
+  - apply orb_true_iff in H as [H|H]; [left|right]; intros Hin; apply in_fzero in Hin; rewrite Hin in H; discriminate.
+  - left. intros Hin. apply in_map_iff in Hin as (x & E & _). destruct x as [a|a|b|[|]|s|s]; discriminate.
+Qed.
+Lemma types_match_trans a b c : types_match a b = true -> types_match a c = true -> types_match b c = true.
+Proof. unfold types_match. intros H1 H2. lia. Qed.
+Lemma homog_b_sound xs : homog_b xs = true -> homog (map av_of xs).
+Proof.
+  unfold homog_b, homog. destruct xs as [|x0 r]; [intros _ a b []|].
+  intros H a b Ha Hb. rewrite forallb_forall in H.
+  apply in_map_iff in Ha as (xa & <- & Ha). apply in_map_iff in Hb as (xb & <- & Hb).
+  exact (types_match_trans _ _ _ (H xa Ha) (H xb Hb)).
+Qed.
+
+Theorem good_line_b_sound : forall l, good_line_b l = true -> good_line l.
+Proof.
+  intros l H. unfold good_line_b in H. apply andb_true_iff in H as [Ha H]. split; [now apply good_addr_b_sound|].
+  destruct (l_array l).
+  - apply andb_true_iff in H as [H H5]. apply andb_true_iff in H as [H H4]. apply andb_true_iff in H as [H H3].
+    apply andb_true_iff in H as [H1 H2].
+    split; [destruct (l_vals l); discriminate|].
+    split; [apply Forall_forall; intros x Hx; apply good_elem_b_sound; rewrite forallb_forall in H2; now apply H2|].
+    split; [now apply nozmix_b_sound|]. split; [now apply homog_b_sound | lia].
+  - destruct (l_vals l) as [|x [|y r]]; try discriminate. exists x. split; [reflexivity | now apply good_scalar1_b_sound].
+Qed.
